@@ -160,7 +160,7 @@ theorem ainv_step {s : Nat} {a a' : Acc} {pre : List Ev} {e : Ev} (hI : AInv s a
                 · rw [sentOf_snoc]; simpa [sentOf] using hI.hsent
                 · rw [acksOf_snoc, hI.hacks]
                   simp only [acksOf, List.filterMap_cons, List.filterMap_nil, if_true]
-                  rw [List.take_succ, hget]; rfl
+                  rw [List.take_add_one, hget]; rfl
                 · exact hlt
                 · exact hI.hnd
                 · rw [pushesOf_snoc]; simpa [pushesOf] using hI.hpush
@@ -247,15 +247,14 @@ theorem quiet_after {s : Nat} : ∀ (post : List Ev) (a a' : Acc), a.drainOk = t
           · subst hts; simp [hd] at hs
           · simp [hts] at hs; subst hs; simp [hd, acksOf, handsOf, hts]
         all_goals (repeat' split at hs) <;> first
+          | (cases hs; simp [hd, acksOf, handsOf]; done)
           | cases hs
-          | (cases hs; simp [hd, acksOf, handsOf])
       obtain ⟨ih1, ih2⟩ := quiet_after es a1 a' hd1.1 h
+      have e0 : e :: es = [e] ++ es := rfl
       have e1 : acksOf s (e :: es) = acksOf s [e] ++ acksOf s es := by
-        simp [acksOf]
-        cases e <;> simp
+        rw [e0]; simp only [acksOf, List.filterMap_append]
       have e2 : handsOf s (e :: es) = handsOf s [e] ++ handsOf s es := by
-        simp [handsOf]
-        cases e <;> simp
+        rw [e0]; simp only [handsOf, List.filterMap_append]
       rw [e1, e2, hd1.2.1, hd1.2.2, ih1, ih2]; simp
 
 end WK.C28
